@@ -25,7 +25,7 @@ type engine struct{}
 func init() { harness.Register(engine{}) }
 
 func (engine) Name() string    { return "storesim" }
-func (engine) Props() []string { return []string{"C01", "C03", "C11", "C12", "C13"} }
+func (engine) Props() []string { return []string{"C01", "C03", "C11", "C12", "C13", "C14"} }
 
 func (e engine) Gen(prop, tier string, run int, r *simcore.Rand) *harness.Plan {
 	switch prop {
@@ -39,6 +39,8 @@ func (e engine) Gen(prop, tier string, run int, r *simcore.Rand) *harness.Plan {
 		return genC12(tier, run, r)
 	case "C13":
 		return genC13(tier, run, r)
+	case "C14":
+		return genC14(tier, run, r)
 	}
 	return nil
 }
@@ -130,6 +132,9 @@ func (e engine) Exec(rc *harness.RunCtx, p *harness.Plan) (out *harness.Outcome)
 	var cfg Config
 	if err := json.Unmarshal(p.Config, &cfg); err != nil {
 		return &harness.Outcome{Inconclusive: "bad config: " + err.Error()}
+	}
+	if p.Mode == "concurrent" {
+		return execC14(rc, p, &cfg)
 	}
 	if p.Mode == "encrypt" {
 		return execC11(rc, p, &cfg)
